@@ -14,7 +14,14 @@ func (f *Frame) execValue(x ssa.Value, in ssa.Instruction, st *State) *Val {
 	switch v := x.(type) {
 	case *ssa.Alloc:
 		r := c.newObj()
-		// cells of a fresh object are zero by the heap axiom; nothing to store
+		// a fresh object is zero: stored explicitly when small (keeps queries
+		// quantifier-free), otherwise left to the quantified heap axiom
+		et := deref(v.Type())
+		if leafCount(et) <= 96 {
+			c.store(st, r, et, c.zero(et))
+		} else {
+			c.needQuantHeap = true
+		}
 		return scalar(r, v.Type())
 	case *ssa.BinOp:
 		return f.binop(st, in, v.Op, f.get(v.X), f.get(v.Y), v.Type())
@@ -56,6 +63,10 @@ func (f *Frame) execValue(x ssa.Value, in ssa.Instruction, st *State) *Val {
 		return fv
 	case *ssa.MakeMap:
 		r := c.newObj()
+		mt := v.Type().Underlying().(*types.Map)
+		pres, _, pn, _, _, _ := c.mapMems(st, mt)
+		_, inner := arrSorts(pres.Sort)
+		c.memSet(st, pn, Store(pres, r, raw("((as const "+inner+") false)", inner)))
 		return scalar(r, v.Type())
 	case *ssa.MakeChan:
 		return scalar(c.newObj(), v.Type())
@@ -65,7 +76,16 @@ func (f *Frame) execValue(x ssa.Value, in ssa.Instruction, st *State) *Val {
 		f.panicSite(st, in, "makeslice", Or(c.idxLt(ln, c.idxLit(0)), c.idxLt(cp, ln)), "makeslice: len out of range")
 		lim := c.idxLit(1 << 48)
 		c.Assume(st.reach, c.idxLt(cp, lim), "allocation size is below 2^48 elements (larger allocations abort the process)")
-		return &Val{K: KSlice, Ty: v.Type(), Base: c.newObj(), Off: c.idxLit(0), Len: ln, Cap: cp}
+		nb := c.newObj()
+		et := elemOf(v.Type())
+		if cp.C != nil && cp.C.IsInt64() && cp.C.Int64()*int64(leafCount(et)) <= 96 {
+			for i := int64(0); i < cp.C.Int64(); i++ {
+				c.store(st, RefElem(nb, c.idxLit(i)), et, c.zero(et))
+			}
+		} else {
+			c.needQuantHeap = true
+		}
+		return &Val{K: KSlice, Ty: v.Type(), Base: nb, Off: c.idxLit(0), Len: ln, Cap: cp}
 	case *ssa.Slice:
 		return f.sliceOp(st, in, v)
 	case *ssa.TypeAssert:
@@ -840,4 +860,23 @@ func (f *Frame) next(st *State, v *ssa.Next) *Val {
 		vv, _ = c.unflatten(mt.Elem(), ts)
 	}
 	return &Val{K: KTuple, Ty: v.Type(), F: []*Val{scalar(ok, tup.At(0).Type()), kv, vv}}
+}
+
+// leafCount: number of memory cells a value of type t occupies.
+func leafCount(t types.Type) int {
+	switch u := t.Underlying().(type) {
+	case *types.Struct:
+		n := 0
+		for i := 0; i < u.NumFields(); i++ {
+			n += leafCount(u.Field(i).Type())
+		}
+		return n
+	case *types.Array:
+		return int(u.Len()) * leafCount(u.Elem())
+	case *types.Slice:
+		return 4
+	case *types.Interface:
+		return 2
+	}
+	return 1
 }
